@@ -38,6 +38,7 @@ import (
 	"github.com/logrange/logrange/pkg/model/field"
 	"github.com/logrange/logrange/pkg/model/tag"
 	"github.com/logrange/range/pkg/records"
+	rbytes "github.com/logrange/range/pkg/utils/bytes"
 	"verifharness/internal/lrsrv"
 	"verifharness/internal/vh"
 )
@@ -266,6 +267,9 @@ func eventPool() []event {
 	}
 }
 
+// two-byte values that differ in case / content: consecutive stored events with these land on the same bytes of the read buffer
+var sameLen = []string{"bx", "cx", "AB", "ab", "zz", "Ab", "aB", "ba", "BX", "a*", "*b", "??", "10", "xb"}
+
 type valT struct{ text, val string }
 
 func q(s string) valT { return valT{strconv.Quote(s), s} }
@@ -439,6 +443,9 @@ type whereCase struct {
 	Text    string  `json:"text"`
 	WantAst string  `json:"want_ast,omitempty"` // intended AST ("" = unknown: take the real parser's)
 	Events  []event `json:"events,omitempty"`   // nil = the standard pool
+	// Buffered: the events are evaluated one after another through ONE reused read buffer (message and fields of every
+	// event are copied to the same place and the LogEvent aliases it), as the chunk iterator hands stored events out
+	Buffered bool `json:"buffered,omitempty"`
 }
 
 type whereOut struct {
@@ -463,6 +470,40 @@ func evalImpl(f lql.WhereExpFunc, e event) string {
 	return r
 }
 
+// readBuf imitates the chunk iterator's read buffer (chunkfs cIterator.buf + LogEvent.Unmarshal(rec, false)): every
+// record is read to the same place, the LogEvent's Msg and Fields alias the buffer and are overwritten by the next record.
+type readBuf struct{ msg, fld []byte }
+
+func newReadBuf() *readBuf { return &readBuf{msg: make([]byte, 0, 1024), fld: make([]byte, 0, 4096)} }
+
+func (b *readBuf) load(e event) model.LogEvent {
+	b.msg = append(b.msg[:0], e.Msg...)
+	b.fld = append(b.fld[:0], e.Fields...)
+	return model.LogEvent{Timestamp: e.Ts, Msg: records.Record(b.msg), Fields: field.Fields(rbytes.ByteArrayToString(b.fld))}
+}
+
+// evalBuffered evaluates f over the events in order through one read buffer
+func evalBuffered(f lql.WhereExpFunc, evs []event) []string {
+	b := newReadBuf()
+	out := make([]string, len(evs))
+	for i, e := range evs {
+		r := ""
+		p := vh.Recover(func() {
+			le := b.load(e)
+			if f(&le) {
+				r = "1"
+			} else {
+				r = "0"
+			}
+		})
+		if p != "" {
+			r = "panic"
+		}
+		out[i] = r
+	}
+	return out
+}
+
 func hashKey(s string, i int) string {
 	h := fnv.New64a()
 	h.Write([]byte(s))
@@ -480,6 +521,7 @@ func runWhere(secName string, sec *vh.Section, cases []whereCase, pool []event) 
 		bpanic  string
 		evs     []event
 		impl    []string
+		implBuf []string // the same events in the same order through one reused read buffer, on a freshly built filter
 		skipped bool
 	}
 	tb := newTables()
@@ -520,8 +562,18 @@ func runWhere(secName string, sec *vh.Section, cases []whereCase, pool []event) 
 		for _, e := range p.evs {
 			if p.bpanic != "" || p.berr != nil {
 				p.impl = append(p.impl, "err")
-			} else {
+			} else if !c.Buffered {
 				p.impl = append(p.impl, evalImpl(p.f, e))
+			}
+		}
+		if p.bpanic == "" && p.berr == nil {
+			// stored events reach the filter through the chunk iterator's reused buffer: evaluate the sequence that way too,
+			// on a filter built afresh (a filter must not carry anything from one event to the next)
+			if f2, err2 := lql.BuildWhereExpFuncByExpression(exp); err2 == nil && f2 != nil {
+				p.implBuf = evalBuffered(f2, p.evs)
+			}
+			if c.Buffered {
+				p.impl = p.implBuf
 			}
 		}
 	}
@@ -631,6 +683,28 @@ func runWhere(secName string, sec *vh.Section, cases []whereCase, pool []event) 
 					continue // malformed fields: Fields.Value may panic, not this property
 				}
 				one := whereCase{Text: p.c.Text, WantAst: p.c.WantAst, Events: []event{e}}
+				if p.c.Buffered {
+					one = whereCase{Text: p.c.Text, WantAst: p.c.WantAst, Buffered: true, Events: append([]event{}, p.evs[:j+1]...)}
+				}
+				if p.implBuf != nil && !p.c.Buffered && p.implBuf[j] != impl {
+					// the answer depends on what was evaluated before through the same buffer: record the shortest event sequence
+					// (previous + this one, else the whole prefix) that reproduces it on a fresh filter
+					seq := whereCase{Text: p.c.Text, WantAst: p.c.WantAst, Buffered: true, Events: append([]event{}, p.evs[:j+1]...)}
+					if j > 0 {
+						if f3, e3 := lql.BuildWhereExpFuncByExpression(p.exp); e3 == nil {
+							if r := evalBuffered(f3, p.evs[j-1:j+1]); r[1] == p.implBuf[j] {
+								seq.Events = append([]event{}, p.evs[j-1:j+1]...)
+							}
+						}
+					}
+					if p.implBuf[j] != m {
+						res.Mismatch(vh.Mismatch{Section: secName, Function: "WhereExpFunc(event) over consecutive events in one read buffer", Input: seq, Impl: p.implBuf[j], Model: m})
+					}
+					if (s == "0" || s == "1") && p.implBuf[j] != s {
+						res.SpecFail(vh.SpecFailure{Section: secName, Kind: "wrong-result", Input: seq, Impl: p.implBuf[j], Spec: s, Model: m, ImplEqModel: p.implBuf[j] == m,
+							What: "the filter's answer for the last event of the sequence differs from the reference meaning when the events are handed over through one reused read buffer (as stored events are): the filter carries state from the previous event"})
+					}
+				}
 				if impl != m {
 					res.Mismatch(vh.Mismatch{Section: secName, Function: "WhereExpFunc(event)", Input: one, Impl: impl, Model: m})
 				}
@@ -960,6 +1034,8 @@ type sliceIt struct {
 	pos  int
 	bkwd bool
 	jump bool // does not keep its place on a direction switch: moves one step in the new direction
+	buf  *readBuf
+	src  []event // when set, Get hands the events out through buf (Msg and Fields alias it), as the chunk iterator does
 }
 
 func (s *sliceIt) Next(ctx context.Context) {
@@ -972,6 +1048,12 @@ func (s *sliceIt) Next(ctx context.Context) {
 func (s *sliceIt) Get(ctx context.Context) (model.LogEvent, tag.Line, error) {
 	if s.pos < 0 || s.pos >= len(s.evs) {
 		return model.LogEvent{}, "", io.EOF
+	}
+	if s.src != nil {
+		if s.buf == nil {
+			s.buf = newReadBuf()
+		}
+		return s.buf.load(s.src[s.pos]), "", nil
 	}
 	e := s.evs[s.pos]
 	e.Msg = append([]byte{}, e.Msg...)
@@ -1010,7 +1092,7 @@ func runFiter(c fiterCase, sec *vh.Section) (lines, impls []string, ok bool) {
 		tb.addExpr(exp)
 	}
 	idx := map[int64]int{}
-	si := &sliceIt{jump: c.Jump}
+	si := &sliceIt{jump: c.Jump, src: c.Events}
 	for i, e := range c.Events {
 		tb.addEvent(e)
 		idx[e.Ts] = i
@@ -1177,7 +1259,7 @@ func checkFiter(c fiterCase, lines, impls, outs []string) {
 
 func sectionFiter(rng *vh.Rng) {
 	sec := res.Section("fiter", "system-correspondence",
-		"the real cursor.fiterator (newFIterator, Get, Next, SetBackward) over a scripted model.Iterator holding 0..9 events with distinct timestamps, with a generated WHERE expression (or none) and an optional time range whose bounds sit on event timestamps: (a) a plain forward drain — IMPL vs MODEL vs SPEC (List.filter); (b) scripts of 4..16 get/next/set-backward operations ending in a drain, half of them over an iterator that moves one step on a direction switch (so a stale cached event is observable) — IMPL vs MODEL step by step. non-trivial = at least 2 events and a filter that lets through some but not all, distinct by case")
+		"the real cursor.fiterator (newFIterator, Get, Next, SetBackward) over a scripted model.Iterator holding 0..9 events with distinct timestamps, handed out through one reused read buffer as the chunk iterator does (half of the cases hold runs of equal-length messages and field values that differ only in case), with a generated WHERE expression (or none) and an optional time range whose bounds sit on event timestamps: (a) a plain forward drain — IMPL vs MODEL vs SPEC (List.filter); (b) scripts of 4..16 get/next/set-backward operations ending in a drain, half of them over an iterator that moves one step on a direction switch (so a stale cached event is observable) — IMPL vs MODEL step by step. non-trivial = at least 2 events and a filter that lets through some but not all, distinct by case")
 	n := 1500
 	if args.Thorough {
 		n = 20000
@@ -1191,8 +1273,13 @@ func sectionFiter(rng *vh.Rng) {
 		}
 		k := rng.Range(0, 9)
 		perm := rng.Perm(len(pool))
+		runs := rng.Bool()
 		for j := 0; j < k; j++ {
 			e := pool[perm[j]]
+			if runs {
+				v := rng.PickS(sameLen)
+				e = mkEvent(0, v, "a", rng.PickS(sameLen), "b", rng.PickS(sameLen))
+			}
 			e.Ts = int64(j*2) + int64(rng.Intn(2)) + 3 // distinct, around the literal 10
 			e.MsgHex, e.FldHex = vh.HxS(e.Msg), vh.HxS(e.Fields)
 			c.Events = append(c.Events, e)
@@ -1289,6 +1376,13 @@ func e2eEvents() []e2eEvent {
 	// timestamps at the literals: 10 is there (i=9); -5 and the date
 	evs = append(evs, e2eEvent{0, -6, "neg6", "a=n"}, e2eEvent{1, -5, "neg5", "a=n"}, e2eEvent{0, -4, "neg4", "a=n"},
 		e2eEvent{1, absNano - 1, "d-1", "a=d"}, e2eEvent{0, absNano, "d", "a=d"}, e2eEvent{1, absNano + 1, "d+1", "a=d"})
+	// partition 2: one batch = one chunk, consecutive records of identical layout (2-byte message, a=<2 bytes>,b=<2 bytes>) that
+	// differ in case / content, with contiguous timestamps so that they are consecutive in the merged stream too
+	seq := [][3]string{{"bx", "bx", "AB"}, {"cx", "cx", "ab"}, {"AB", "AB", "zz"}, {"zz", "zz", "Ab"}, {"ab", "ab", "bx"}, {"ba", "ba", "aB"}, {"Ab", "Ab", "ba"},
+		{"aB", "aB", "BX"}, {"BX", "BX", "cx"}, {"a*", "xb", "ab"}, {"xb", "a*", "AB"}, {"??", "ab", "??"}, {"ab", "??", "10"}, {"10", "AB", "ab"}, {"AB", "10", "xb"}}
+	for i, t := range seq {
+		evs = append(evs, e2eEvent{2, int64(40 + i), t[0], "a=" + t[1] + ",b=" + t[2]})
+	}
 	return evs
 }
 
@@ -1320,7 +1414,7 @@ func evKey(e *api.LogEvent) string { return fmt.Sprintf("%d|%s|%s", e.Timestamp,
 
 func sectionE2E(rng *vh.Rng, extra []e2eCase) {
 	sec := res.Section("e2e", "spec-search",
-		"in-process server (all components, RPC loop-back): 36 events with distinct timestamps written through the RPC client into two partitions (duplicate, empty and absent fields, non-UTF-8 messages and values, timestamps at the ts literals -1/0/+1); for generated expressions (depth <= 3) and a fixed list of boundary expressions: SELECT [RANGE] WHERE e paged with page size 1, 3, 7 or 1000 vs SPEC = the unfiltered SELECT filtered by evalRef (and the range) on the intended AST; unsupported expressions must make the query fail. non-trivial = the filter keeps some but not all events, distinct by (text, range, page)")
+		"in-process server (all components, RPC loop-back): 51 events with distinct timestamps written through the RPC client into three partitions (duplicate, empty and absent fields, non-UTF-8 messages and values, timestamps at the ts literals -1/0/+1; the third partition is one batch of 15 identically laid out records — equal-length messages and field values differing in case/content, contiguous timestamps — so that consecutive stored events reuse the same bytes of the chunk iterator's buffer); for generated expressions (depth <= 3) and a fixed list of boundary expressions: SELECT [RANGE] WHERE e paged with page size 1, 3, 7 or 1000 vs SPEC = the unfiltered SELECT filtered by evalRef (and the range) on the intended AST; unsupported expressions must make the query fail. non-trivial = the filter keeps some but not all events, distinct by (text, range, page)")
 	dir := lrsrv.NewDir()
 	defer os.RemoveAll(dir)
 	srv, err := lrsrv.Start(dir, lrsrv.Opts{})
@@ -1330,7 +1424,7 @@ func sectionE2E(rng *vh.Rng, extra []e2eCase) {
 	defer srv.Stop()
 	evs := e2eEvents()
 	sort.Slice(evs, func(i, j int) bool { return evs[i].Ts < evs[j].Ts })
-	for part := 0; part < 2; part++ {
+	for part := 0; part < 3; part++ {
 		var batch []*api.LogEvent
 		for _, e := range evs {
 			if e.Part == part {
@@ -1378,6 +1472,12 @@ func sectionE2E(rng *vh.Rng, extra []e2eCase) {
 	}
 	for _, t := range fixed {
 		cases = append(cases, e2eCase{Text: t, Page: rng.PickI([]int{1, 3, 7, 1000})})
+	}
+	// conversions over the run of identically laid out records of partition 2 (one cursor = one filter for the whole run)
+	for _, t := range []string{`lower(msg) contains "a"`, `upper(msg) prefix "A"`, `lower(msg) = "ab"`, `NOT upper(msg) = "AB"`, `lower(fields:a) = "ab"`, `upper(fields:a) = "AB"`,
+		`NOT upper(fields:a) = "AB"`, `lower(fields:b) suffix "b"`, `upper(fields:b) like "?B"`, `lower(upper(fields:a)) >= "b"`, `upper(lower(msg)) < "B"`,
+		`lower(msg) contains "a" AND NOT upper(fields:b) = "AB"`, `upper(fields:a) = "AB" OR lower(fields:b) = "ab"`} {
+		cases = append(cases, e2eCase{Text: t, Page: 1000}, e2eCase{Text: t, Page: 7})
 	}
 	n := 150
 	if args.Thorough {
